@@ -178,11 +178,13 @@ class Ctx:
         self.syms[name] = v
         return v
 
-    def sandbox_base(self, log2size, name="base"):
+    def sandbox_base(self, log2size, name="base", aligned=True):
+        """aligned=False: only page alignment (what mmap needs for the native replay); for backends that find the
+        sandbox through the registry and need no size alignment"""
         b = self.sym(name, 64)
         size = 1 << log2size
         self.pre += [z3.UGE(b, BV(max(BASE_LO, size), 64)), z3.ULE(b, BV(BASE_HI, 64)),
-                     (b & BV(size - 1, 64)) == 0]
+                     (b & BV((size - 1) if aligned else 0xFFF, 64)) == 0]
         if self.sandbox is None:
             self.sandbox = (b, size)
         else:
